@@ -47,6 +47,8 @@ pub fn c07_configs(thorough: bool) -> Vec<EpCfg> {
                 if ver == Ver::V5 {
                     // frames that fail validation: unknown alias, Receive Maximum excess
                     c.alph.peer_als = vec![Al::No, Al::Use(1)];
+                    // a PUBREL that carries reason code 0x92 releases the identifier like any other
+                    c.alph.peer_ack_err = true;
                     c.connects = vec![ConnProf::basic(true), ConnProf::basic(false), ConnProf { rm: Some(1), tam: Some(1), ..ConnProf::basic(false) }];
                     c.connacks = vec![AckProf::basic(false), AckProf::basic(true), AckProf { rm: Some(1), tam: Some(1), ..AckProf::basic(true) }];
                 }
@@ -134,6 +136,8 @@ pub fn c08_configs(thorough: bool) -> Vec<EpCfg> {
                 // erase_stored_publish() as the application's message-expiry hook: releases a stored PUBLISH,
                 // must not touch an exchange that is past PUBREC
                 c.alph.erase = true;
+                // a refused connection attempt (failure CONNACK) must leave the identifiers of the session alone
+                c.connacks.push(AckProf { ok: false, ..AckProf::basic(false) });
                 // the option setters are ordinary calls: toggled at any time (in the configurations that
                 // start with automatic responses)
                 if auto && (thorough || role == RoleK::Client) {
@@ -248,8 +252,8 @@ pub fn c12_configs(thorough: bool) -> Vec<EpCfg> {
                     c.alph.als = vec![Al::No, Al::Reg(3)];
                     c.alph.topics = 3;
                     // the peer's Receive Maximum arrives in CONNACK (client) / CONNECT (server)
-                    c.connacks = vec![AckProf { rm: Some(mx), tam: Some(2), mps: Some(12), ..AckProf::basic(false) }, AckProf { rm: Some(mx), tam: Some(2), ..AckProf::basic(true) }, AckProf { rm: Some(1), ..AckProf::basic(true) }];
-                    c.connects = vec![ConnProf { rm: Some(mx), tam: Some(2), mps: Some(12), ..ConnProf::basic(true) }, ConnProf { rm: Some(mx), tam: Some(2), ..ConnProf::basic(false) }, ConnProf { rm: Some(1), ..ConnProf::basic(false) }];
+                    c.connacks = vec![AckProf { rm: Some(mx), tam: Some(2), mps: Some(12), ..AckProf::basic(false) }, AckProf { rm: Some(mx), tam: Some(2), ..AckProf::basic(true) }, AckProf { rm: Some(1), ..AckProf::basic(true) }, AckProf { rm: Some(mx), mps: Some(12), ..AckProf::basic(true) }];
+                    c.connects = vec![ConnProf { rm: Some(mx), tam: Some(2), mps: Some(12), ..ConnProf::basic(true) }, ConnProf { rm: Some(mx), tam: Some(2), ..ConnProf::basic(false) }, ConnProf { rm: Some(1), ..ConnProf::basic(false) }, ConnProf { rm: Some(mx), mps: Some(12), ..ConnProf::basic(false) }];
                     c.groups = vec!["c12"];
                     v.push(c);
                 }
@@ -464,6 +468,28 @@ pub fn c14_configs(thorough: bool) -> Vec<EpCfg> {
                 c.groups = vec!["c14"];
                 v.push(c);
             }
+        }
+    }
+    // several stored packets meet a smaller limit on resume: every oversize one is dropped (neighbours in the
+    // store included), every other one retransmitted - window 3, topics of 1 / 2 / 10 bytes, limits between them
+    for role in [RoleK::Client, RoleK::Server] {
+        for l in [9u32, 10, 12] {
+            if !thorough && !(role == RoleK::Client && l == 10) && !(role == RoleK::Server && l == 9) {
+                continue;
+            }
+            let mut c = EpCfg::new(&cfg_name("c14", role, Some(Ver::V5), &format!("resume-limit={l} window=3")), role, Some(Ver::V5));
+            c.auto_pub = true;
+            c.window = 3;
+            c.alph = Alph { pub_q: vec![1], topics: 3, als: vec![Al::No], peer_acks: vec![AckKind::Puback], peer_ack_ids: vec![1, 2, 3], spontaneous_close: true, ..Alph::default() };
+            if role == RoleK::Client {
+                c.connacks = vec![AckProf::basic(true), AckProf { mps: Some(l), ..AckProf::basic(true) }];
+                c.connects = vec![ConnProf::basic(false)];
+            } else {
+                c.connects = vec![ConnProf::basic(false), ConnProf { mps: Some(l), ..ConnProf::basic(false) }];
+                c.connacks = vec![AckProf::basic(true)];
+            }
+            c.groups = vec!["c14"];
+            v.push(c);
         }
     }
     // both directions around the 127 / 128 Remaining Length boundary: the long topics give PUBLISH frames of
